@@ -15,13 +15,19 @@ from harness.core import Case, ImplResult, frac
 PID = 'C01'
 LEAN_MODULES = ['ThermoVerif.Props.C01']
 RULE = ('operation histories (mix_from / Stream.sum / split_to / separate_out / Stream.copy_flow / MultiStream.copy_flow / scale / * /) over 3-8 real '
-        'streams on three real property packages built per case from 6 bundled chemicals (a permuted superset and two '
-        'permuted sub-packages; ~12% of cases use a non-superset package to reach the undefined-chemical branch); '
+        'streams on five real property packages built per case from 6 bundled chemicals (a permuted superset, two permuted '
+        'sub-packages, and re-orderings of the superset and of the first sub-package, so that one receiver package is reached '
+        'by the same chemical set in different orders; ~12% of cases use non-superset packages to reach the undefined-chemical '
+        'branch); half of the streams get their flows entered one by one in a random order of the chemicals (sparse key order '
+        'is what the remap cache of index_overlap is keyed on), 30% carry every chemical; '
         'a deterministic grid first (receiver kind x every non-empty subset of the phases s/l/g/S/L as inlet phases x '
         'package relation x receiver among the inlets; split grid: feed kind x outlet kinds x package relation x '
         'scalar/vector split incl. 0 and 1; separate grid: the four kind pairings x package relation x equal/different '
         'phase tuples; copy grids: source kind x package relation x ID form x exclude, and for multi-phase destinations '
-        'source phases equal / permuted / more x ID form x exclude x phase argument), then random histories generated adaptively on the real objects; flows and factors are dyadic '
+        'source phases equal / permuted / more x ID form x exclude x phase argument; remap-history grid: receiver kind x '
+        'inlet kind x small/large shared set x {two packages in opposite orders, one package with different entry orders, '
+        'both in one call, mix-then-separate, split onto the receiver package} with several cross-package operations '
+        'against the same receiver package per case), then random histories generated adaptively on the real objects; flows and factors are dyadic '
         'so every comparison is exact; a case is non-trivial when at least one operation moved a non-zero amount; '
         'distinct = distinct op sequences')
 ASSUMPTIONS = [
@@ -58,7 +64,7 @@ def setup():
 
 
 def budget(tier):
-    return {'quick': dict(seconds=45, cases=1400, shrink_s=8, search_s=6),
+    return {'quick': dict(seconds=45, cases=1600, shrink_s=8, search_s=6),
             'thorough': dict(seconds=400, cases=40000, shrink_s=25, search_s=20)}[tier]
 
 
@@ -150,9 +156,23 @@ class Universe:
         return False
 
     # ---- operations --------------------------------------------------------------------------
-    def new_stream(self, pkg, kind, phases, rows):
+    def new_stream(self, pkg, kind, phases, rows, order=None):
         th, ids = self.pkgs[pkg]
         names = [NAMES[c] for c in ids]
+        if order is not None:
+            # flows entered one by one in the given order of positions: the sparse rows get that key order
+            # (index_overlap's cache key is the CAS tuple in key order)
+            if kind == 'S':
+                s = tmo.Stream(None, thermo=th, phase=phases)
+                for k in order:
+                    if rows[0][k]: s.imol[names[k]] = float(rows[0][k])
+            else:
+                s = tmo.MultiStream(None, thermo=th, phases=tuple(phases))
+                for p, r in zip(phases, rows):
+                    for k in order:
+                        if r[k]: s.imol[p, names[k]] = float(r[k])
+            self.streams.append(s)
+            return
         if kind == 'S':
             flows = {n: float(v) for n, v in zip(names, rows[0]) if v}
             s = tmo.Stream(None, thermo=th, phase=phases, **flows)
@@ -175,7 +195,8 @@ class Universe:
             return 'ok'
         if op == 'new':
             rows = [[Fraction(x) for x in r.split(',')] for r in t[4].split(';')]
-            self.new_stream(int(t[1]), t[2], t[3], rows)
+            order = [int(x) for x in t[5][1:].split(',')] if len(t) > 5 else None
+            self.new_stream(int(t[1]), t[2], t[3], rows, order)
         elif op == 'mix':
             S[int(t[1])].mix_from([S[i] for i in parse_ids(t[2])], energy_balance=False)
         elif op == 'sum':
@@ -536,31 +557,48 @@ def gen_pkgs(rng, subset=True):
     n0 = rng.choice([4, 5, 6, 6])
     p0 = rng.sample(ids, n0)
     if subset:
-        p1 = rng.sample(p0, rng.randrange(1, min(4, n0) + 1))
+        p1 = rng.sample(p0, rng.choice([1, 2, 2, 3, 3, min(4, n0)]))
         p2 = rng.sample(p0, rng.randrange(2, n0 + 1))
     else:
         p1 = rng.sample(ids, rng.randrange(2, 5))
         p2 = rng.sample(ids, rng.randrange(2, 6))
-    return [p0, p1, p2]
+    # the same chemical sets listed in another order (the remap cache of a receiver package sees both orders)
+    return [p0, p1, p2, reorder(rng, p1), reorder(rng, p0)]
+
+
+def reorder(rng, p):
+    if len(p) < 2: return list(p)
+    q = list(p)
+    for _ in range(8):
+        rng.shuffle(q)
+        if q != list(p): return q
+    return list(reversed(p))
+
+
+def entry_order(rng, n):
+    return 'o' + ','.join(map(str, rng.sample(range(n), n)))
 
 
 def row_line(rng, n, zero=0.3, empty=False):
     return ','.join(fr(Fraction(0) if empty else dy(rng, zero)) for _ in range(n))
 
 
-def gen_new(rng, pkgs, pkg=None, kind=None, phases=None, empty=None):
+def gen_new(rng, pkgs, pkg=None, kind=None, phases=None, empty=None, dense=None, order=None):
     pkg = rng.randrange(len(pkgs)) if pkg is None else pkg
     n = len(pkgs[pkg])
     kind = kind or rng.choice('SSM')
     empty = (rng.random() < 0.12) if empty is None else empty
+    dense = (rng.random() < 0.3) if dense is None else dense      # every chemical flows: equal key *sets* meet often
+    order = (rng.random() < 0.5) if order is None else order      # flows entered in a random order of the chemicals
+    tail = (' ' + entry_order(rng, n)) if order else ''
     if kind == 'S':
         ph = phases or rng.choice('llgsSLg')
-        return f'new {pkg} S {ph} {row_line(rng, n, 0.35, empty)}'
+        return f'new {pkg} S {ph} {row_line(rng, n, 0.0 if dense else 0.35, empty)}' + tail
     if phases is None:
         k = rng.choice([2, 2, 2, 3, 3, 4, 5])
         phases = ''.join(rng.sample(PHASES, k)) if rng.random() < 0.6 else 'gl'
-    rows = [row_line(rng, n, 0.5, empty or rng.random() < 0.25) for _ in phases]
-    return f'new {pkg} M {phases} {";".join(rows)}'
+    rows = [row_line(rng, n, 0.0 if dense else 0.5, empty or rng.random() < 0.25) for _ in phases]
+    return f'new {pkg} M {phases} {";".join(rows)}' + tail
 
 
 def split_arg(rng, n):
@@ -735,7 +773,19 @@ def grid_cases(rng):
             for ex in ('0', '1'):
                 for php in ('*', 'p'):
                     cases.append(('mcopy', sk, form, ex, php))
+    # ---- the CAS remap (index_overlap and its per-package cache) under history: the same chemical set reaches one
+    #      receiver package from two packages listing it in opposite orders, and from one package with flows entered
+    #      in different orders; through mix (single- and multi-phase receivers and inlets), sum, separate, split
+    for rk in ('S', 'M'):
+        for ik in ('S', 'M'):
+            for big in (False, True):
+                for variant in ('two-packages', 'entry-order', 'one-op', 'sep', 'split'):
+                    cases.append(('remap', rk, ik, big, variant))
     return cases
+
+
+def nstreams(ops):
+    return sum(1 for l in ops if l.startswith('new'))
 
 
 def make_grid_case(rng, spec):
@@ -746,23 +796,23 @@ def make_grid_case(rng, spec):
         _, sub, rk, rel, selfin, shape = spec
         rph = 'gl' if rng.random() < 0.6 else ''.join(rng.sample(PHASES, rng.choice([2, 3])))
         ops.append(gen_new(rng, pkgs, 0, rk, rph if rk == 'M' else rng.choice('lg'), empty=False))
-        ipkg = 0 if rel == 'same' else rng.choice([1, 2])
+        ipkg = 0 if rel == 'same' else rng.choice([1, 2, 3, 4])
         ins = []
         if shape == 'singles':
             for p in sub:
                 ops.append(gen_new(rng, pkgs, ipkg if rng.random() < 0.8 else 0, 'S', p, empty=rng.random() < 0.1))
-                ins.append(len(ops) - 4)
+                ins.append(nstreams(ops) - 1)
         else:
-            ops.append(gen_new(rng, pkgs, ipkg, 'M', sub, empty=False)); ins.append(len(ops) - 4)
+            ops.append(gen_new(rng, pkgs, ipkg, 'M', sub, empty=False)); ins.append(nstreams(ops) - 1)
             if rng.random() < 0.5:
-                ops.append(gen_new(rng, pkgs, 0, 'S', rng.choice(PHASES))); ins.append(len(ops) - 4)
+                ops.append(gen_new(rng, pkgs, 0, 'S', rng.choice(PHASES))); ins.append(nstreams(ops) - 1)
         if selfin: ins.insert(rng.randrange(len(ins) + 1), 0)
         ops.append(f'mix 0 {",".join(map(str, ins))}')
         # and separate the last inlet out again
         if ins[-1] != 0: ops.append(f'sep 0 {ins[-1]}')
     elif kind == 'split':
         _, fk, ak, bk, rel, sp = spec
-        fpkg = 0 if rel == 'same' else rng.choice([1, 2])
+        fpkg = 0 if rel == 'same' else rng.choice([1, 2, 3, 4])
         fph = 'gl' if rng.random() < 0.5 else ''.join(rng.sample(PHASES, rng.choice([2, 3])))
         ops.append(gen_new(rng, pkgs, fpkg, fk, fph if fk == 'M' else rng.choice('lgs'), empty=False))
         for k in (ak, bk):
@@ -774,7 +824,7 @@ def make_grid_case(rng, spec):
         ops.append(f'split 0 1 2 {arg}')
     elif kind == 'sep':
         _, xk, yk, rel, phs, ye = spec
-        ypkg = 0 if rel == 'same' else rng.choice([1, 2])
+        ypkg = 0 if rel == 'same' else rng.choice([1, 2, 3, 4])
         xph = ''.join(rng.sample(PHASES, rng.choice([2, 3, 4])))
         if phs == 'equal': yph = xph
         elif phs == 'sub': yph = ''.join(rng.sample(xph, 2))
@@ -787,6 +837,37 @@ def make_grid_case(rng, spec):
         ops.append(gen_new(rng, pkgs, ypkg, yk, yph if yk == 'M' else rng.choice(yph), empty=ye))
         ops.append('mix 0 1,2')
         ops.append('sep 0 2')
+    elif kind == 'remap':
+        _, rk, ik, big, variant = spec
+        # package 0 receives; B and C hold the same set (all of package 1, or all of package 0) in two orders
+        B, C = (4, 0) if big else (1, 3)
+        if big:
+            pkgs = pkgs + [reorder(rng, pkgs[0])]; ops.append('pkg ' + ','.join(map(str, pkgs[5]))); C = 5
+        elif len(pkgs[1]) < 2:
+            pkgs[1] = rng.sample(pkgs[0], 2); pkgs[3] = list(reversed(pkgs[1]))
+            ops[1] = 'pkg ' + ','.join(map(str, pkgs[1])); ops[3] = 'pkg ' + ','.join(map(str, pkgs[3]))
+        rph = 'gl' if rng.random() < 0.5 else ''.join(rng.sample(PHASES, 3))
+        def recv(): ops.append(gen_new(rng, pkgs, 0, rk, rph if rk == 'M' else rng.choice('lg'), empty=rng.random() < 0.5)); return nstreams(ops) - 1
+        def inlet(pk, order):
+            iph = (rph if rng.random() < 0.7 else 'ls') if ik == 'M' else rng.choice(rph)
+            ops.append(gen_new(rng, pkgs, pk, ik, iph, empty=False, dense=True, order=order)); return nstreams(ops) - 1
+        r1, r2 = recv(), recv()
+        if variant == 'two-packages':
+            b1, b2, c1, c2 = inlet(B, False), inlet(B, False), inlet(C, False), inlet(C, False)
+            ops += [f'mix {r1} {b1},{b2}', f'mix {r2} {c1},{c2}', f'mix {r1} {b1},{c1},{c2}', f'sum 0 {c2},{b2}']
+        elif variant == 'entry-order':
+            d1, d2, d3 = inlet(B, True), inlet(B, True), inlet(B, True)
+            ops += [f'mix {r1} {d1},{d2}', f'mix {r2} {d2},{d3}', f'mix {r1} {d3},{d1}']
+        elif variant == 'one-op':
+            b1, c1, d1 = inlet(B, True), inlet(C, True), inlet(B, True)
+            ops += [f'mix {r1} {b1},{c1},{d1},{r1}', f'mix {r2} {c1},{d1}']
+        elif variant == 'sep':
+            b1, c1 = inlet(B, True), inlet(C, True)
+            ops += [f'mix {r1} {b1},{c1}', f'sep {r1} {c1}', f'mix {r2} {c1},{b1},{r2}', f'sep {r2} {b1}', f'sep {r2} {c1}']
+        else:
+            b1, c1 = inlet(B, True), inlet(C, True)
+            ops += [f'mix {r1} {b1},{c1}', f'split {c1} {r1} {r2} {split_arg(rng, len(pkgs[C]))}', f'mix {r2} {c1},{b1}',
+                    f'split {b1} {r2} {r1} {split_arg(rng, len(pkgs[B]))}']
     elif kind == 'mcopy':
         _, sk, form, ex, php = spec
         dph = ''.join(rng.sample(PHASES, rng.choice([2, 3])))
@@ -806,7 +887,7 @@ def make_grid_case(rng, spec):
         ops.append(f'copy 0 1 {ids} 1 {ex} {"*" if php == "*" else rng.choice(dph)}')
     else:
         _, sk, rel, form, ex = spec
-        spkg = 0 if rel == 'same' else rng.choice([1, 2])
+        spkg = 0 if rel == 'same' else rng.choice([1, 2, 3, 4])
         ops.append(gen_new(rng, pkgs, 0, 'S', rng.choice('lg')))
         ops.append(gen_new(rng, pkgs, spkg, sk, None, empty=False))
         sp_ = pkgs[spkg]
@@ -870,6 +951,10 @@ def corpus():
         Case(['pkg 0,1,2', 'new 0 M gl 0,0,0;0,0,0', 'new 0 M gls 0,0,0;0,0,0;0,5,0', 'copy 0 1 * 1 0 *']),
         Case(['pkg 0,1,2', 'new 0 M gl 0,0,0;0,0,0', 'new 0 S g 1,2,3', 'copy 0 1 1 1 1 l']),
         Case(['pkg 0,1,2', 'new 0 M gl 0,0,0;0,0,0', 'new 0 S l 1,2,3', 'copy 0 1 * 1 1 *']),
+        # the remap cache of one receiver package sees the same chemical set in two orders (two packages, then two entry orders)
+        Case(['pkg 0,1,2', 'pkg 1,0', 'pkg 0,1', 'new 0 S l 0,0,0', 'new 0 S l 0,0,0', 'new 1 S l 2,5', 'new 1 S l 1,3',
+              'new 2 S l 7,11', 'new 2 S l 13,17', 'mix 0 2,3', 'mix 1 4,5', 'mix 0 2,4,5', 'new 2 S l 2,3 o0,1',
+              'new 2 S l 23,19 o1,0', 'mix 1 6,7', 'sep 1 7']),
     ]
 
 
